@@ -74,6 +74,36 @@ def backlog_round_trip(ctx, rule):
                        ctx.loc(rf), DERIVED_KEYS.get(key, 'restored'))
     if n < 10:
         raise AnalysisError('backlog round trip: only %d keys' % n)
+    # what is saved under a key is the attribute of the command itself, not
+    # a filtered / cleaned copy of it (the context saved with a command
+    # carries its `__versions`: without them the data of the restored
+    # command loses every merge against a branch that kept its versions)
+    n_v = 0
+    for c in [CMDS + '.WorkflowCommand'] + classes:
+        g = prog.funcs.get(c + '.to_dict')
+        if g is None:
+            continue
+        pairs = []
+        for x in own_nodes(g.node):
+            if isinstance(x, ast.Dict):
+                pairs += [(k.value, v) for k, v in zip(x.keys, x.values)
+                          if isinstance(k, ast.Constant)]
+            if isinstance(x, ast.Assign) and \
+                    isinstance(x.targets[0], ast.Subscript) and \
+                    isinstance(x.targets[0].slice, ast.Constant):
+                pairs.append((x.targets[0].slice.value, x.value))
+        for key, v in pairs:
+            n_v += 1
+            d = dotted(v) or ''
+            plain = isinstance(v, ast.Constant) or d.startswith('self.') or (
+                isinstance(v, ast.Call) and
+                (dotted(v.func) or '').startswith('self.') and not v.args)
+            rule.check(plain, '%s.to_dict :: %r saved as it is' % (c, key),
+                       'the backlog entry stores %s under %r, not the '
+                       "command's own attribute" % (norm(v, 50), key),
+                       ctx.loc(g, v))
+    if n_v < 10:
+        raise AnalysisError('backlog round trip: only %d saved values' % n_v)
     # attributes consumed when the task is built from a RunTask command
     bf = prog.func('mistral.engine.task_handler._build_task_from_command')
     consumed = set()
@@ -1908,3 +1938,72 @@ def rpc_client_payload_as_given(ctx, rule):
                        'caller passed' % bad, ctx.loc(f, c))
     if n < 12:
         raise AnalysisError('RPC clients: %d sends found' % n)
+
+
+def batches_cover_all_rows(ctx, rule):
+    """The final context of a direct workflow is folded over the completed
+    tasks read in batches: the batches have to partition ALL rows of the
+    query - consecutive windows `slice(i, i + S)` with the index advanced by
+    the same S, until the index reaches the row count (`query.count()`,
+    directly or through a local).  A window one row short, or a bound
+    rounded down to whole batches, silently drops the published variables
+    of some end tasks from the workflow output."""
+    prog = ctx.prog
+    f = prog.func('mistral.db.v2.sqlalchemy.api.'
+                  'get_completed_task_executions_as_batches')
+    cfg = ctx.cfg(f)
+    sl = [c for c in own_nodes(f.node) if isinstance(c, ast.Call) and
+          U.call_name(c) == 'slice' and len(c.args) == 2]
+    if len(sl) != 1:
+        raise AnalysisError('batches: slice(...) not found')
+    lo, hi = sl[0].args
+    idx = lo.id if isinstance(lo, ast.Name) else None
+    step = None
+    if isinstance(hi, ast.BinOp) and isinstance(hi.op, ast.Add) and \
+            norm(hi.left) == norm(lo):
+        step = norm(hi.right)
+    elif isinstance(hi, ast.BinOp) and isinstance(hi.op, ast.Add) and \
+            norm(hi.right) == norm(lo):
+        step = norm(hi.left)
+    rule.check(idx is not None and step is not None,
+               ctx.construct(f, extra='window [i, i + S)'),
+               'a batch is %s, not the window [i, i + S) of the index'
+               % norm(sl[0], 60), ctx.loc(f, sl[0]))
+    if idx is None or step is None:
+        return
+
+    def is_count(e):
+        e = U.canon_expr(f.node, e)
+        return isinstance(e, ast.Call) and U.call_name(e) == 'count' and \
+            not e.args
+
+    ok_adv = ok_bound = False
+    for x in own_nodes(f.node):
+        if isinstance(x, ast.While) and any(y is sl[0] for y in ast.walk(x)):
+            t = x.test
+            ok_bound = isinstance(t, ast.Compare) and len(t.ops) == 1 and \
+                isinstance(t.ops[0], ast.Lt) and norm(t.left) == idx and \
+                is_count(t.comparators[0])
+            ok_adv = any(isinstance(y, ast.AugAssign) and
+                         isinstance(y.op, ast.Add) and
+                         norm(y.target) == idx and norm(y.value) == step
+                         for y in ast.walk(x)) and \
+                sum(1 for y in ast.walk(x)
+                    if isinstance(y, (ast.AugAssign, ast.Assign)) and any(
+                        norm(t_) == idx for t_ in (
+                            [y.target] if isinstance(y, ast.AugAssign)
+                            else y.targets))) == 1
+        if isinstance(x, ast.For) and any(y is sl[0] for y in ast.walk(x)) \
+                and norm(x.target) == idx and isinstance(x.iter, ast.Call) \
+                and U.call_name(x.iter) == 'range' and len(x.iter.args) == 3:
+            a0, a1, a2 = x.iter.args
+            ok_bound = isinstance(a0, ast.Constant) and a0.value == 0 and \
+                is_count(a1)
+            ok_adv = norm(a2) == step
+    rule.check(ok_adv, ctx.construct(f, extra='index advances by S'),
+               'the index does not advance by the window size %s: rows are '
+               'skipped or read twice' % step, ctx.loc(f))
+    rule.check(ok_bound, ctx.construct(f, extra='until the row count'),
+               'the batches stop at something other than the row count of '
+               'the query: the last (partial) batch of completed tasks is '
+               'not read', ctx.loc(f))
